@@ -20,6 +20,8 @@ pub struct ReqPlan {
     pub outs: Vec<(u8, Vec<u8>)>,  // (stream type, bytes) in write order
     pub ret: Ret,
     pub opens: bool,
+    /// records after the last stream record (only for a role without input streams: management traffic behind the preamble)
+    pub tail_noise: bool,
 }
 
 fn status_token(rng: &mut Rng) -> (String, Ret) {
@@ -64,9 +66,18 @@ pub fn gen_req(rng: &mut Rng, keep: bool, noise_level: u64, mc: usize, bufsize: 
         recs.extend(srecs);
         contents.push((s, c));
     }
+    // a role WITHOUT input streams (Authorizer): management / unknown-type / foreign-id traffic may still follow the preamble while the
+    // request is active; it is parsed when the handler polls its (empty) input, in close(), or — with keep-conn — by the next
+    // request parser.  No BeginRequest (a one-request-at-a-time client) and nothing of the request's own id.
+    let mut tail_noise = false;
+    if role_streams(role).is_empty() && noise_level > 0 {
+        let n = rng.usize_below(4);
+        for _ in 0..n { let r = noise_stream(rng, Phase::Active(id)); if r.rtype == T_BEGIN || r.id == id { continue; } owed.extend(spec_owed(Phase::Active(id), &r, mc)); recs.push(r); tail_noise = true; }
+    }
     // ---- handler script
     let mut ops: Vec<String> = vec![]; let mut reads_all = vec![]; let mut outs = vec![];
     let streams = role_streams(role);
+    if streams.is_empty() { match rng.below(4) { 0 => ops.push(format!("r{}", 1 + rng.usize_below(40))), 1 => ops.push("R".into()), 2 => { ops.push("f".into()); } _ => {} } }
     // (the model's handler fuel now counts the parser's buffer capacity, so read-to-end is fine with > 64 KiB buffers too)
     let large = bufsize > 65_535;
     let read_mode = rng.below(5);
@@ -104,7 +115,7 @@ pub fn gen_req(rng: &mut Rng, keep: bool, noise_level: u64, mc: usize, bufsize: 
     let (tok, ret) = if leak { let (t, _) = status_token(rng); (t, Ret::Err("writers")) } else if allow_handler_err && rng.chance(1, 10) { let k = *rng.pick(&["other", "invalid", "eof", "aborted"]); (format!("E{k}"), Ret::Err(k)) } else { status_token(rng) };
     if !tok.is_empty() { ops.push(tok); }
     let script = if ops.is_empty() { "-".to_string() } else { ops.join(",") };
-    ReqPlan { pre, contents, recs, pre_len, owed, script, reads_all, outs, ret, opens }
+    ReqPlan { pre, contents, recs, pre_len, owed, script, reads_all, outs, ret, opens, tail_noise }
 }
 
 pub fn field<'a>(obs: &'a str, key: &str) -> Option<&'a str> {
@@ -163,7 +174,7 @@ pub fn check_conn(or: &mut Oracle, log: &Log, prop: &str, plans: &[ReqPlan], tr:
         let mut upto = 0usize;
         for (i, p) in plans.iter().enumerate().take(hs.len()) {
             upto += p.owed.len();
-            let reads_everything = role_streams(p.pre.role).iter().all(|s| p.reads_all.contains(s));
+            let reads_everything = !p.tail_noise && role_streams(p.pre.role).iter().all(|s| p.reads_all.contains(s));
             if let (true, Some(seen)) = (reads_everything && matches!(p.ret, Ret::Ok(..)), mgmt_before_end[i]) {
                 if seen < upto && owed_all.starts_with(&mgmt) { or.fail(format!("request {}: EndRequest was written when only {seen} of the {upto} bytes of management replies owed so far had gone out (the handler had read all input)", i + 1), log.replay_block(), format!("{prop}:endrequest-before-replies")); break; }
             }
@@ -173,7 +184,7 @@ pub fn check_conn(or: &mut Oracle, log: &Log, prop: &str, plans: &[ReqPlan], tr:
     // request's unread rest is parsed by the next parse_request; a final request without keep-conn whose handler read all its streams
     // to the end left nothing unparsed), every owed reply must have been written by the time the task stalls or returns
     let all_ok = !faults && hs.len() == served && he.len() == hs.len() && (tr.fin == "STALL" || tr.fin == "RET")
-        && plans.iter().take(served).all(|p| matches!(p.ret, Ret::Ok(..)) && (p.pre.flags & 1 == 1 || role_streams(p.pre.role).iter().all(|s| p.reads_all.contains(s))));
+        && plans.iter().take(served).all(|p| matches!(p.ret, Ret::Ok(..)) && (p.pre.flags & 1 == 1 || (!p.tail_noise && role_streams(p.pre.role).iter().all(|s| p.reads_all.contains(s)))));
     if all_ok && prop == "C07" {
         if mgmt.len() < owed_all.len() && owed_all.starts_with(&mgmt) { or.fail(format!("only {} of the {} bytes of owed management replies were written although every request ended normally and all input was parsed", mgmt.len(), owed_all.len()), log.replay_block(), format!("{prop}:replies-missing")); }
         or.count("connections_checked_for_reply_completeness");
@@ -610,7 +621,7 @@ pub fn run_c12(ctx: &mut Ctx) {
             let mut hi = 0;
             for e in &tr.events {
                 if e.starts_with("HS(") { hi += 1; }
-                if let Some(rest) = e.strip_prefix("R=") { let data = unhex(rest.split(':').nth(1).unwrap_or("-")); if let Some(p) = plans.get(hi.max(1) - 1) { if !p.contents.iter().any(|(_, c)| c == &data || c.ends_with(&data)) { or.fail(format!("fault {kind}: read-to-end succeeded with {} bytes although the stream was cut short", data.len()), log.replay_block(), "C12:short-read-ok".into()); } } }
+                if let Some(rest) = e.strip_prefix("R=") { let data = unhex(rest.split(':').nth(1).unwrap_or("-")); if let Some(p) = plans.get(hi.max(1) - 1) { if !(p.contents.is_empty() && data.is_empty()) && !p.contents.iter().any(|(_, c)| c == &data || c.ends_with(&data)) { or.fail(format!("fault {kind}: read-to-end succeeded with {} bytes although the stream was cut short", data.len()), log.replay_block(), "C12:short-read-ok".into()); } } }
             }
             // ... and that error is the unexpected-EOF error (for an EOF of the transport) or the transport's own error (for a failed
             // read) — not some other kind (the connection's writes are all benign in these runs, so no write error can surface on the read side)
